@@ -8,6 +8,7 @@ package harness
 import (
 	"context"
 	"fmt"
+	"strings"
 	"sync"
 	"testing"
 	"time"
@@ -56,6 +57,32 @@ func TestC13FinishStress(t *testing.T) {
 						cancel()
 						continue
 					}
+					// every other round the session is busy first: commands whose deadlines end about when their responses
+					// arrive (the server answers at once); whatever becomes of them, the session must still finish cleanly
+					if r%2 == 1 {
+						// the client keeps consuming (late responses end up on its response stream)
+						go func() {
+							for range cc.RespCmdChan() {
+							}
+						}()
+						go func() {
+							for req := range sc.ReqCmdChan() {
+								resp := &lime.ResponseCommand{Status: lime.CommandStatusSuccess}
+								resp.ID, resp.Method = req.ID, req.Method
+								actx, ac := context.WithTimeout(context.Background(), time.Second)
+								_ = sc.SendResponseCommand(actx, resp)
+								ac()
+							}
+						}()
+						for k := 0; k < 6; k++ {
+							req := &lime.RequestCommand{}
+							req.ID, req.Method = fmt.Sprintf("pc-%d", k), lime.CommandMethodGet
+							req.SetURIString("/ping")
+							pctx, pc := context.WithTimeout(context.Background(), time.Duration((w*7+r*3+k*11)%40)*time.Microsecond)
+							_, _ = cc.ProcessCommand(pctx, req)
+							pc()
+						}
+					}
 					// the server side answers a finishing client the way Server does
 					go func() {
 						<-sc.RcvDone()
@@ -74,13 +101,27 @@ func TestC13FinishStress(t *testing.T) {
 					case cc.State() != lime.SessionStateFinished:
 						what = "state " + string(cc.State()) + " after FinishSession"
 					}
+					closed := make(chan struct{})
+					go func() {
+						_ = cc.Close()
+						_ = sc.Close()
+						close(closed)
+					}()
+					select {
+					case <-closed:
+					case <-time.After(8 * time.Second):
+						if what == "" {
+							what = "closing the channels after the session finished does not return"
+						}
+					}
 					if what != "" {
 						mu.Lock()
 						fails[what] = fmt.Sprintf("worker %d round %d (connected=%v)", w, r, ct.Connected())
 						mu.Unlock()
+						if strings.Contains(what, "does not return") || strings.Contains(what, "deadline") {
+							return // this worker has seen enough: every further round would wait as long
+						}
 					}
-					_ = cc.Close()
-					_ = sc.Close()
 				}
 			}(w)
 		}
